@@ -66,6 +66,13 @@ func (v *Verdict) violate(rule string, facts map[string]string, format string, a
 func (v *Verdict) absorb(r *RunResult) {
 	v.Runs++
 	if r.World != nil {
+		if r.World.LockStall != "" {
+			// not a verdict about the code: the simulator cannot decide who runs next when a task waits on a lock it does not own
+			v.Infra = append(v.Infra, "a task is parked on a lock the simulator does not model: "+r.World.LockStall)
+		}
+		if r.World.LockWaits > 0 {
+			v.probe("lock-wait")
+		}
 		v.Steps += r.World.Steps()
 		v.SimMs += r.World.Now()
 		v.SchedHash = r.World.SchedHash()
